@@ -34,7 +34,7 @@ structure DAcc where
   tags : Std.HashMap String Nat := {}
 
 /-- long lines are cut when echoed, except whole-run records (C04), which are needed intact for the replay -/
-def clip (s : String) : String := if s.length > 6000 && !((s.splitOn " :: C04 ").length > 1) then (s.take 6000).toString ++ " …" else s
+def clip (s : String) : String := if s.length > 6000 && !((s.splitOn " :: C04 ").length > 1) && !((s.splitOn " :: C01 erun ").length > 1) then (s.take 6000).toString ++ " …" else s
 def clipMsg (s : String) : String := if s.length > 400 then (s.take 400).toString ++ " …" else s
 
 def dispatch (toks : List String) : Verdict :=
